@@ -40,6 +40,9 @@ CLAIMED = {
  "C14": ("exploration", "differential + model-based PBT: the same persisted directory read under generated key-index settings",
          "Generated key sets (empty key, shared prefixes, variable lengths) persisted as 1-3 segments and optionally fully compacted; a copy of the directory is opened with the index off (defaults) and with generated quota / minimum-key-bytes settings spanning hop = 1..n and truncated indexes; every present key, neighbours, below-first / above-last and generated probes are read by Get, and ranges [p,nil), [nil,p), [p,q) are iterated; all must equal the reference under every setting.",
          "5.C14"),
+ "C18": ("exploration", "differential PBT: ReadOnly open of generated (and tampered) directories through a recording File wrapper, compared with a normal open of a copy; directory hashed before/after",
+         "Directories produced by generated writer histories (several data files with KeepFiles, early closes) and tampered with (incomplete / garbage newer files, torn newest file, junk); a generated program of reads, batches, notifications, Store.Persist, SnapshotPrevious and closes runs against the ReadOnly store; the directory listing with SHA-256 must be unchanged after the open and after every step, the wrapper must see only read-type operations, and the content served must equal a normal open of a copy.",
+         "5.C18"),
  "C19": ("exploration", "model-based PBT with hostile/boundary byte strings + metamorphic twins (plain vs Alloc, DeferredSort, CachePersisted)",
          "Generated histories whose keys and values include the empty string, 0x00/0xFF, the store's magic markers and footer-header look-alikes, page-boundary-sized values, the 2^24-1 byte key and oversize operations that must be rejected inside a batch; each program also runs as its twin with plain and Alloc-built operations swapped and DeferredSort / CachePersisted flipped; collection, store and reopened content are compared byte-exactly and in order with the reference at every stage. " + NOTE_SCHED,
          "5.C19"),
